@@ -13,6 +13,7 @@ Definition obs_eqb (a b : obs) : bool :=
   match a, b with
   | ONoParser, ONoParser | ONone, ONone | ODone, ODone => true
   | OParse x, OParse y => vals_eqb x y
+  | OFail e, OFail e' => err_eqb e e'
   | _, _ => false
   end.
 
